@@ -353,13 +353,17 @@ func (p *asyncProducer) dispatcher() {
 			}
 			verifEvt("d.accept", msg, 0, 0)
 			p.inFlight.Add(1)
+
+			// interceptors see a message once, when the application submits it: not again when it
+			// passes the dispatcher on a retry, and never the internal fin markers (which always
+			// arrive here with retries > 0)
+			for _, interceptor := range p.conf.Producer.Interceptors {
+				verifEvt("d.icept", msg, msg.retries, int(msg.flags))
+				msg.safelyApplyInterceptor(interceptor)
+			}
 		}
 
 		verifEvt("d.pass", msg, msg.retries, int(msg.flags))
-		for _, interceptor := range p.conf.Producer.Interceptors {
-			verifEvt("d.icept", msg, msg.retries, int(msg.flags))
-			msg.safelyApplyInterceptor(interceptor)
-		}
 
 		version := 1
 		if p.conf.Version.IsAtLeast(V0_11_0_0) {
